@@ -59,6 +59,8 @@ class FnSpec:
     notes: list = field(default_factory=list)
     ghost_body: list = field(default_factory=list)  # lemma body statements
     options: dict = field(default_factory=dict)
+    hints: dict = field(default_factory=dict)  # where -> [ast.expr] ghost lemma calls
+    ghosts: list = field(default_factory=list)  # [(name, ast.expr)] entry-state let-bindings
 
     @property
     def unit(self):
@@ -144,6 +146,8 @@ class Module:
                 return S.TDict(self.sort_of(args[0]), self.sort_of(args[1]), ordered=True)
             if head == "Tuple":
                 return S.TTuple([self.sort_of(a) for a in args])
+            if head == "Fn":
+                return S.TFn([a.value if isinstance(a, ast.Constant) else ast.unparse(a) for a in args])
             if head == "Ref":
                 return S.TRef(args[0].value if isinstance(args[0], ast.Constant) else args[0].id)
         raise ContractError(f"{self.path}:{getattr(node, 'lineno', '?')}: bad sort expression {ast.dump(node)}")
@@ -263,7 +267,7 @@ def load(path) -> Module:
         if isinstance(node, ast.FunctionDef):
             for d in node.decorator_list:
                 kind = _deco_name(d)
-                if kind in ("spec", "pure", "axiom", "contract", "extern", "assumed", "lemma"):
+                if kind in ("spec", "pure", "recursive", "axiom", "contract", "extern", "assumed", "lemma"):
                     _load_fn(m, node, kind, d)
     return m
 
@@ -326,6 +330,12 @@ def _load_fn(m: Module, node: ast.FunctionDef, kind, deco):
             fs.loop_index[_const(call.args[0])] = _const(call.args[1])
         elif fn == "note":
             fs.notes.append(_const(call.args[0]))
+        elif fn == "ghost":
+            # ghost(name, expr): a specification-only name for the entry-state value of expr
+            fs.ghosts.append((_const(call.args[0]), call.args[1]))
+        elif fn == "hint":
+            # hint("exit" | "loop<k>:step" | "loop<k>:exit" | "loop<k>:init", lemma_call_or_fact)
+            fs.hints.setdefault(_const(call.args[0]), []).append(call.args[1])
         elif isinstance(st, ast.Expr) and isinstance(st.value, ast.Constant) and st.value.value is Ellipsis:
             pass
         elif isinstance(st, ast.Pass):
@@ -333,7 +343,7 @@ def _load_fn(m: Module, node: ast.FunctionDef, kind, deco):
         else:
             ghost.append(st)
     fs.ghost_body = ghost
-    if kind in ("spec", "pure"):
+    if kind in ("spec", "pure", "recursive"):
         m.fns[name] = fs
     elif kind == "axiom":
         m.axioms.append(fs)
